@@ -71,7 +71,7 @@ def explore_algebra(case):
                      detail=dict(status=B.status[op]), sub="algebra", case=case)
     if any(B.status[o] != "ok" for o in ops):
         return res
-    elems = alpha.elements(AL, seed, small=False, cap_product=4000 if tier == "thorough" else 800)
+    elems = alpha.elements(AL, seed, small=False, cap_product=6000 if tier == "thorough" else 2500)
     # harvested switch points of the compiled left Jacobian
     prog = sxvm.compile_fn(B.get("left_jacobian"))
     rs = [i for i, s in enumerate(AL) if s[0] == "rotvec"][0]
@@ -163,7 +163,7 @@ def explore_Q(case):
         res.count("evaluations")
         res.fail(site="se3.left_Q", clause="operation_raises", cls=type(ex).__name__, detail=dict(msg=str(ex)[:200]), sub="Q", case=case)
         return res
-    elems = alpha.elements(AL, seed, small=(tier != "thorough"))
+    elems = alpha.elements(AL, seed, small=False)
     for e in elems:
         x = e["p"]
         th = float(np.linalg.norm(x[3:]))
@@ -208,7 +208,7 @@ def explore_kinematic(case):
     tier, seed = case["tier"], case["seed"]
     res = core.Result()
     ws = [np.array([1.0, 0, 0]), np.array([0, 1.0, 0]), np.array([0, 0, 1.0]), np.array([1.0, -2.0, 3.0]), alpha.generic_vec(seed, 3)]
-    rvs = alpha.rotvecs(seed, small=(tier != "thorough"))
+    rvs = alpha.rotvecs(seed, small=False)
     # quaternion
     BQ = lib.built("SO3Quat")
     for op in ("g_left_jacobian", "g_right_jacobian"):
